@@ -490,7 +490,7 @@ func (d *drv) judgeFS(o *opRec, before, after listing, al *allow) {
 			attrs["op"] = o.Kind
 			attrs["outcome"] = outcomeOf(o.Result)
 		}
-		det := d.detail(o, map[string]interface{}{"listing_diff": df, "file": k, "entries": ent(append(append(append([]string{}, df.Removed...), df.Created...), df.Changed...)...)})
+		det := d.detail(o, map[string]interface{}{"listing_diff": df, "legacy_renames_expected_and_allowed": al.rename, "file": k, "entries": ent(append(append(append([]string{}, df.Removed...), df.Created...), df.Changed...)...)})
 		for a, b := range extra {
 			det[a] = b
 		}
@@ -547,11 +547,13 @@ func (d *drv) judgeFS(o *opRec, before, after listing, al *allow) {
 			}
 			trig := createdTrigger(k, before, renameModel{Renames: al.rename})
 			startupCreated = append(startupCreated, k)
-			report("startup-created-plot-files", map[string]string{"trigger": trig}, k,
-				map[string]interface{}{"created": which, "what": "NewSpaceKeeperV1 (start-up scan) created this plot file; it was not in the directory before and no Configure* call generated it"})
+			// The statement forbids other operations to DELETE plot data; creating files is outside it.
+			// Observed and counted, not judged (the wrong state that follows from it is judged by the indexing oracle).
+			_ = which
+			d.count("observed(not judged):startup-created-plot-files:" + trig)
 			continue
 		}
-		report("file-created-without-request", map[string]string{"file": d.relation(k, o)}, k, nil)
+		d.count("observed(not judged):file-created-without-request")
 	}
 	for k := range changed {
 		if al.modify[k] {
